@@ -76,6 +76,16 @@ CHECKS = {
         note="`never panics` is false for the current code (known finding F7): the model reproduces the panics and the check verifies the implementation panics exactly there. The lift from events to the loaded "
              "waveform relies on the store correspondence (C04). Hangs cannot occur in the model (structural recursion); a hang of the real loader would stall the harness and be reported as reply-count mismatch.",
     ),
+    "C03": dict(
+        technique="Lean 4 proof (chunk arithmetic, hand-over exit only truncates, append concatenates tables) + differential run over every boundary alignment against the Lean model of the chunked parser",
+        text="The schedule quantifier collapses in the model (pure per-chunk parsers, ordered collect, sequential append). Lean theorems C03_chunks, C03_chunk_events_prefix, C03_append_table. "
+             "The multi-threaded loader runs in scoped rayon pools of 2..16 threads with a hook overriding MIN_CHUNK_SIZE so that boundaries land on every byte alignment of small bodies "
+             "(plus production chunking on larger ones); results are compared with the executable Lean model of the chunked parser and with the single-threaded load.",
+        design_ref="DESIGN.md section 5 / C03",
+        note="mt = st is not proved as a theorem (only its three ingredients); for hand-over-safe bodies it is checked differentially, for unsafe bodies the property is false in the current code "
+             "(known finding FMT = F2/F3/F4/F5b) and the check verifies the implementation does exactly what the model predicts. Trusted: rayon's ordered exactly-once map; real thread "
+             "interleavings are varied only through pool sizes.",
+    ),
 }
 
 NOT_YET = "check not built yet in this round (machinery under construction; see DESIGN.md section 10 for the order of work)"
